@@ -20,6 +20,7 @@ RULE = ("requests `div|cdiv <form> <lhs> <rhs>` under each of the 8 thread round
         "|quotient| within 2 of 2^127")
 BUILDS = {"quick": [("dev", ()), ("release", ())],
           "thorough": [("dev", ()), ("release", ()), ("release", ("packed",)), ("o0-nochk", ())]}
+ASSUMPTIONS = [C.GRID_NOTE]
 REQUIRED_SITES = {"divr.eq": 100, "divr.less.narrow": 100, "divr.less.wide": 100,
                   "shdm.neg_pos": 50, "shdm.exact_neg": 20, "shdm.none": 20, "round_quot.tie": 50,
                   "round_quot.overflow": 2, "knuth": 100, "idiv64": 100}
@@ -189,6 +190,9 @@ def gen(rng, tier, shard, batch):
     for mode in MODES:
         reqs.append("mode " + mode)
         reqs += mine
+        if batch == 0:
+            for a, p, b, q in C.small_grid(tier, shard, E.NCPU):
+                reqs.append("div vv %s %s" % (G.fD(a, p), G.fD(b, q)))
         for _ in range(N_RANDOM[tier]):
             op = rng.choice(("div", "div", "cdiv"))
             k = rng.random()
